@@ -248,8 +248,8 @@ fn feed3(r: &mut MonoMidiReceiver, a: u8, b: u8, c: u8) {
 // C04 / C05  inductive step per message kind, listened channel
 // =====================================================================
 
-// @family prop=C04,C05,C17 name=c04_note_on_step macro=midi_step_note_on n=33 quick=8 thorough=16 tseeded=0 plus=3 timeout=1800
-// @about slice K = bound on outstanding note-ons (K=8 quick, K=16 thorough -- K=32 did not finish in 50 min; the property bounds it at 32): any Inv_midi receiver state (held list of length < K with any contents, gate <=> list non-empty, pending edges consistent, any priority, any retrigger mode, any channel, every output field symbolic), one note-on event (any note, any velocity 1..=127) delivered to the real handler handle_note_on (the byte-level dispatch parse() -> handler is decided by the c06_* harnesses): afterwards gate, note_num (most recent/highest/lowest outstanding), velocity (v/127), held list, rising and falling latches equal the reference model; rising => gate, falling => !gate
+// @family prop=C04,C05,C17 name=c04_note_on_step macro=midi_step_note_on n=33 quick=8,32 thorough=16,32 tseeded=0 plus=3 timeout=1800
+// @about slice K = bound on outstanding note-ons (note-on: K=8 and K=32 in both tiers, so the 32nd outstanding note-on is covered; note-off: K=8 quick, K=16 thorough -- K=32 did not finish in 50 min; the property bounds it at 32): any Inv_midi receiver state (held list of length < K with any contents, gate <=> list non-empty, pending edges consistent, any priority, any retrigger mode, any channel, every output field symbolic), one note-on event (any note, any velocity 1..=127) delivered to the real handler handle_note_on (the byte-level dispatch parse() -> handler is decided by the c06_* harnesses): afterwards gate, note_num (most recent/highest/lowest outstanding), velocity (v/127), held list, rising and falling latches equal the reference model; rising => gate, falling => !gate
 macro_rules! midi_step_note_on {
     ($name:ident, $k:expr, $u:expr) => {
         #[kani::proof]
@@ -767,6 +767,16 @@ fn c20_channel_above_15_acts_as_15() {
     vassert!(x.held_down_notes.len() == 0, "C20/channel/other-channels-ignored");
     feed3(&mut a, 0x90 | want, 60, 100);
     vassert!(a.held_down_notes.len() == 1 && a.held_down_notes[0] == 60, "C20/channel/listens-on-clamped-channel");
+    // every message kind is filtered by the same clamped channel
+    feed3(&mut a, 0x80 | want, 60, 0);
+    vassert!(a.held_down_notes.len() == 2, "C20/channel/note-off-on-clamped-channel");
+    feed3(&mut a, 0xB0 | want, 1, 127);
+    vassert!(a.mod_wheel() == 1.0, "C20/channel/controller-on-clamped-channel");
+    feed3(&mut a, 0xE0 | want, 0, 0);
+    vassert!(a.pitch_bend() == -1.0, "C20/channel/pitch-bend-on-clamped-channel");
+    feed3(&mut x, 0xB0 | other, 1, 127);
+    feed3(&mut x, 0xE0 | other, 0, 0);
+    vassert!(x.mod_wheel() == 0.0 && x.pitch_bend() == 0.0, "C20/channel/other-channels-ignored");
     vcover!(c == 255, "witness: 255");
     vcover!(c == 16, "witness: 16");
     vcover!(c == 15, "witness: 15");
